@@ -453,7 +453,7 @@ func (x *Exec) mainTask() {
 		ssim.Go(ts.Name, ts.Role, func() {
 			for _, op := range ts.Ops {
 				x.doOp(ts.Name, op, "body")
-				if sc.Cfg.Lagfree && op.K != OpQuiesce {
+				if sc.Cfg.Lagfree && op.K != OpQuiesce && !op.NQ {
 					ssim.Quiesce()
 				}
 			}
